@@ -166,6 +166,20 @@ static void d_nums(C4_Nums_table_t t)
     { C4_Full_vec_t v = C4_Nums_vfull(t); D(" vfull="); if (!v) D("~"); else { D("["); for (i = 0; i < C4_Full_vec_len(v); ++i) D("%u,", C4_Full_vec_at(v, i)); D("]"); } }
     D("}");
 }
+static void d_anyvec(C4_Any_union_vec_t uv)
+{
+    size_t i;
+    if (!uv.type && !uv.value) { D("~"); return; }
+    D("["); for (i = 0; i < C4_Any_union_vec_len(uv); ++i) { C4_Any_union_t u = C4_Any_union_vec_at(uv, i); d_union(u.type, u.value); D(","); } D("]");
+}
+static void d_depfirst(C4_DepFirst_table_t t)
+{ if (!t) { D("~"); return; } D("DepFirst{u="); d_union(C4_DepFirst_u_type(t), C4_DepFirst_u(t)); D(" v="); d_anyvec(C4_DepFirst_v_union(t)); D(" n="); P(C4_DepFirst_n_is_present(t)); D("%d}", C4_DepFirst_n(t)); }
+static void d_depmid(C4_DepMid_table_t t)
+{ if (!t) { D("~"); return; } D("DepMid{u="); d_union(C4_DepMid_u_type(t), C4_DepMid_u(t)); D(" v="); d_anyvec(C4_DepMid_v_union(t)); D(" w="); d_union(C4_DepMid_w_type(t), C4_DepMid_w(t)); D(" s="); d_str(C4_DepMid_s(t)); D("}"); }
+static void d_deplast(C4_DepLast_table_t t)
+{ if (!t) { D("~"); return; } D("DepLast{u="); d_union(C4_DepLast_u_type(t), C4_DepLast_u(t)); D(" v="); d_anyvec(C4_DepLast_v_union(t)); D(" w="); d_union(C4_DepLast_w_type(t), C4_DepLast_w(t)); D("}"); }
+static void d_deponly(C4_DepOnly_table_t t)
+{ if (!t) { D("~"); return; } D("DepOnly{n="); P(C4_DepOnly_n_is_present(t)); D("%d s=", C4_DepOnly_n(t)); d_str(C4_DepOnly_s(t)); D("}"); }
 static void d_node(C4_Node_table_t t, int depth);
 static void d_tree(C4_Tree_union_type_t type, flatbuffers_generic_t v, int depth)
 {
@@ -239,6 +253,10 @@ static struct root roots[] = {
     { "Fix", C4_Fix_parse_json_as_root, C4_Fix_print_json_as_root, C4_Fix_verify_as_root_with_identifier, 6 },
     { "Nums", C4_Nums_parse_json_as_root, C4_Nums_print_json_as_root, C4_Nums_verify_as_root_with_identifier, 7 },
     { "Node", C4_Node_parse_json_as_root, C4_Node_print_json_as_root, C4_Node_verify_as_root_with_identifier, 8 },
+    { "DepFirst", C4_DepFirst_parse_json_as_root, C4_DepFirst_print_json_as_root, C4_DepFirst_verify_as_root_with_identifier, 9 },
+    { "DepMid", C4_DepMid_parse_json_as_root, C4_DepMid_print_json_as_root, C4_DepMid_verify_as_root_with_identifier, 10 },
+    { "DepLast", C4_DepLast_parse_json_as_root, C4_DepLast_print_json_as_root, C4_DepLast_verify_as_root_with_identifier, 11 },
+    { "DepOnly", C4_DepOnly_parse_json_as_root, C4_DepOnly_print_json_as_root, C4_DepOnly_verify_as_root_with_identifier, 12 },
     { 0, 0, 0, 0, 0 }
 };
 static char *dump_buffer(struct root *r, const void *buf, int presence)
@@ -254,6 +272,10 @@ static char *dump_buffer(struct root *r, const void *buf, int presence)
     case 6: d_fix(C4_Fix_as_root(buf)); break;
     case 7: d_nums(C4_Nums_as_root(buf)); break;
     case 8: d_node(C4_Node_as_root(buf), 0); break;
+    case 9: d_depfirst(C4_DepFirst_as_root(buf)); break;
+    case 10: d_depmid(C4_DepMid_as_root(buf)); break;
+    case 11: d_deplast(C4_DepLast_as_root(buf)); break;
+    case 12: d_deponly(C4_DepOnly_as_root(buf)); break;
     }
     return strdup(dbuf);
 }
